@@ -223,31 +223,40 @@ func (f *frame) lockGet(kind string, loc lockLoc) string {
 // Contents are not tracked except through contracts; a receive yields an arbitrary
 // value (or the zero value with ok=false when closed and empty).
 
-func (x *Exec) chanInit(st *State, ch, size string) {
+// channel ghost state is kept per channel type (channels of different element types
+// cannot be the same object)
+func chanKey(kind string, t types.Type) string {
+	if c, ok := under(t).(*types.Chan); ok {
+		return "X:chan:" + kind + ":" + typeKey(c.Elem())
+	}
+	return "X:chan:" + kind + ":" + typeKey(under(t))
+}
+
+func (x *Exec) chanInit(st *State, ch Val, size string) {
 	h := x.heap
-	h.set(st, "X:chan:closed", "(Array Int Bool)", Store(h.get(st, "X:chan:closed", "(Array Int Bool)"), ch, "false"))
-	h.set(st, "X:chan:len", "(Array Int Int)", Store(h.get(st, "X:chan:len", "(Array Int Int)"), ch, "0"))
-	h.set(st, "X:chan:cap", "(Array Int Int)", Store(h.get(st, "X:chan:cap", "(Array Int Int)"), ch, size))
+	h.set(st, chanKey("closed", ch.T), "(Array Int Bool)", Store(h.get(st, chanKey("closed", ch.T), "(Array Int Bool)"), ch.S, "false"))
+	h.set(st, chanKey("len", ch.T), "(Array Int Int)", Store(h.get(st, chanKey("len", ch.T), "(Array Int Int)"), ch.S, "0"))
+	h.set(st, chanKey("cap", ch.T), "(Array Int Int)", Store(h.get(st, chanKey("cap", ch.T), "(Array Int Int)"), ch.S, size))
 }
 
-func (x *Exec) chanLen(st *State, ch string) string {
-	return Select(x.heap.get(st, "X:chan:len", "(Array Int Int)"), ch)
+func (x *Exec) chanLen(st *State, ch Val) string {
+	return Select(x.heap.get(st, chanKey("len", ch.T), "(Array Int Int)"), ch.S)
 }
 
-func (x *Exec) chanClosed(st *State, ch string) string {
-	return Select(x.heap.get(st, "X:chan:closed", "(Array Int Bool)"), ch)
+func (x *Exec) chanClosed(st *State, ch Val) string {
+	return Select(x.heap.get(st, chanKey("closed", ch.T), "(Array Int Bool)"), ch.S)
 }
 
 func (x *Exec) chanClose(f *frame, ch Val, pos string) {
 	h := x.heap
 	f.safety("closenil", "close of nil channel", Not(Eq(ch.S, "0")), pos)
-	f.safety("closeclosed", "close of closed channel", Not(x.chanClosed(f.st, ch.S)), pos)
-	h.set(f.st, "X:chan:closed", "(Array Int Bool)", Store(h.get(f.st, "X:chan:closed", "(Array Int Bool)"), ch.S, "true"))
+	f.safety("closeclosed", "close of closed channel", Not(x.chanClosed(f.st, ch)), pos)
+	h.set(f.st, chanKey("closed", ch.T), "(Array Int Bool)", Store(h.get(f.st, chanKey("closed", ch.T), "(Array Int Bool)"), ch.S, "true"))
 	x.ghostLogCall(f.st, "chan.close", []Val{ch}, Val{T: types.NewTuple()})
 }
 
 func (x *Exec) chanSend(f *frame, ch Val, v Val, pos string) {
-	f.safety("sendclosed", "send on closed channel", Not(x.chanClosed(f.st, ch.S)), pos)
+	f.safety("sendclosed", "send on closed channel", Not(x.chanClosed(f.st, ch)), pos)
 	x.ghostLogCall(f.st, "chan.send:"+typeKey(ch.T), []Val{ch, v}, Val{T: types.NewTuple()})
 }
 
@@ -260,7 +269,7 @@ func (x *Exec) chanRecv(f *frame, ch Val, commaOk bool, t types.Type, pos string
 	// a closed, drained channel yields the zero value with ok=false; blocking forever is an infeasible path
 	zero := x.vc.zeroVal(et)
 	val := x.vc.iteVal(okc, v, zero)
-	f.assume(Implies(Not(okc), x.chanClosed(f.st, ch.S)))
+	f.assume(Implies(Not(okc), x.chanClosed(f.st, ch)))
 	x.ghostLogCall(f.st, "chan.recv:"+typeKey(ch.T), []Val{ch}, Val{T: types.NewTuple(types.NewVar(0, nil, "", et)), Fs: []Val{val}})
 	if commaOk {
 		return Val{T: t, Fs: []Val{val, {T: boolT, S: okc}}}
@@ -285,11 +294,11 @@ func (f *frame) selectStmt(n *ssa.Select) {
 			et := under(s.Chan.Type()).(*types.Chan).Elem()
 			v := x.fixPtrs(x.vc.freshVal(et, fmt.Sprintf("select.recv%d", i)))
 			f.assume(x.heap.valAssume(f.st, v))
-			f.assume(Implies(And(Eq(idx, IntLit(int64(i))), Not(okc)), x.chanClosed(f.st, ch.S)))
+			f.assume(Implies(And(Eq(idx, IntLit(int64(i))), Not(okc)), x.chanClosed(f.st, ch)))
 			zero := x.vc.zeroVal(et)
 			out.Fs = append(out.Fs, x.vc.iteVal(okc, v, zero))
 		} else {
-			f.safety("sendclosed", "send on closed channel in select", Implies(Eq(idx, IntLit(int64(i))), Not(x.chanClosed(f.st, ch.S))), f.pos(n))
+			f.safety("sendclosed", "send on closed channel in select", Implies(Eq(idx, IntLit(int64(i))), Not(x.chanClosed(f.st, ch))), f.pos(n))
 		}
 	}
 	f.regs[n] = out
@@ -395,9 +404,9 @@ func (sc *modScanner) instr(in ssa.Instruction, depth int) {
 		sc.elemKeys(sliceElem(n.Type()))
 		sc.keys[allocKey] = true
 	case *ssa.MakeChan:
-		sc.add("X:chan:closed", "(Array Int Bool)")
-		sc.add("X:chan:len", "(Array Int Int)")
-		sc.add("X:chan:cap", "(Array Int Int)")
+		sc.add(chanKey("closed", n.Type()), "(Array Int Bool)")
+		sc.add(chanKey("len", n.Type()), "(Array Int Int)")
+		sc.add(chanKey("cap", n.Type()), "(Array Int Int)")
 		sc.keys[allocKey] = true
 	case *ssa.Convert:
 		if isByteSlice(n.Type()) && isString(n.X.Type()) {
@@ -459,7 +468,7 @@ func (sc *modScanner) call(c *ssa.CallCommon, depth int) {
 		case "copy":
 			sc.elemKeys(sliceElem(c.Args[0].Type()))
 		case "close":
-			sc.add("X:chan:closed", "(Array Int Bool)")
+			sc.add(chanKey("closed", c.Args[0].Type()), "(Array Int Bool)")
 			sc.ghostClass("chan.close")
 		}
 	case *ssa.Function:
